@@ -13,6 +13,76 @@ BINDING = A.BINDING_WRITER
 ADAPTERS = ("iter::filter", "iter::skip", "iter::take", "iter::step_by", "iter::rev", "iter::take_while", "iter::skip_while", "iter::filter_map")
 
 
+# attributes of the SOAP binding extension whose absence has a meaning (WSDL 1.1, 3.3 / 3.4): an absent `style` is `document`
+ATTRIBUTE_DEFAULTS = {"style": "document"}
+
+
+def _mentions_lit(nf, text):
+    if isinstance(nf, tuple):
+        if len(nf) == 2 and nf[0] == "lit" and nf[1] == text:
+            return True
+        return any(_mentions_lit(x, text) for x in nf)
+    return False
+
+
+def _comparisons(nf, out):
+    if isinstance(nf, tuple):
+        if nf and nf[0] == "binop" and nf[1] in ("Eq", "Ne") and len(nf) == 4:
+            out.append((nf[2], nf[3]))
+        if nf and nf[0] == "call" and str(nf[1]).rsplit("::", 1)[-1] in ("eq", "ne") and len(nf) > 2 and len(nf[2]) == 2:
+            out.append((nf[2][0], nf[2][1]))
+        for x in nf:
+            _comparisons(x, out)
+    return out
+
+
+def rule_absent_is_default(ck, F, CE, rule="R6"):
+    """Which operations get envelopes may depend on `style` only in a way that takes an absent attribute for its default: a test
+    that compares what was read (None when absent) with the default value itself treats `no style` and `style="document"` differently,
+    and a WSDL that leaves the attribute out loses its operations."""
+    from rules import c02 as C02
+    W = og.EnvWalker(F)
+    seen = set()
+    n = 0
+    for b in F.lib.bodies:
+        if b.get("hir") is None or not b["path"].startswith(("model::soap", "<model::soap")) or "tests::" in b["path"]:
+            continue
+        found = []
+
+        def cb(e, env, ctx, found=found):
+            for c in ctx:
+                if c[0] == "alt" and id(c[1]) not in seen:
+                    seen.add(id(c[1]))
+                    found.append((c[1], Hh.sp(e)))
+        try:
+            W.walk_fn(b["path"], cb)
+        except og.Unrecognised:
+            continue
+        short = b["path"].rsplit("::", 1)[-1]
+        done = set()
+        for cond, site in found:
+            x = CE.expand(cond)
+            for a_, b_ in _comparisons(x, []):
+                for val, other in ((a_, b_), (b_, a_)):
+                    for attr, dflt in ATTRIBUTE_DEFAULTS.items():
+                        is_default = val in (("lit", dflt), ("call", "Some", (("lit", dflt),)), ("some", ("lit", dflt)))
+                        if not is_default or attr not in C02._attribute_names(other):
+                            continue
+                        key = f"absent-is-default:{attr}:{short}"
+                        if key in done:
+                            continue
+                        done.add(key)
+                        n += 1
+                        if _mentions_lit(other, dflt):
+                            ck.ok(rule, key, site, f"{short}: an absent `{attr}` is given its default `{dflt}` before it is compared", fn=short)
+                        else:
+                            ck.violation(rule, key, site,
+                                         f"{short} compares what it read from `{attr}` with `{dflt}` without giving an absent attribute that value first: `{attr}` "
+                                         f"left out (which means `{dflt}`) is treated differently from `{attr}=\"{dflt}\"`", fn=short)
+    if n == 0:
+        ck.ok(rule, "absent-is-default:none", "-", "no attribute with a default is compared with its default value")
+
+
 def run(ck, F):
     ck.explanation = (
         "Decided on the output grammar of the binding and service emitters and on the typed HIR of the WSDL readers: the three "
@@ -31,6 +101,7 @@ def run(ck, F):
                   "binding body part from body@parts else the message's first part; header parts by key")
     X = T.extractor(F)
     CE = og.CallExpander(F)
+    rule_absent_is_default(ck, F, CE)
     # the emitters are found by what they write under the binding / service writers, not by name
     ENV_EMITTER = A.envelope_emitter(X)
     OP_EMITTERS = (A.method_emitter(X), A.operation_fn_emitter(X))
